@@ -521,7 +521,12 @@ class PenlogReader:
     def __init__(self, path: Path) -> None:
         self.path = path if str(path) != "-" else Path("/dev/stdin")
         self.raw_file = self._prepare_for_mmap(self.path)
-        self.file_mmap = mmap.mmap(self.raw_file.fileno(), 0, access=mmap.ACCESS_READ)
+        self.file_mmap: mmap.mmap | io.BytesIO
+        if os.fstat(self.raw_file.fileno()).st_size > 0:
+            self.file_mmap = mmap.mmap(self.raw_file.fileno(), 0, access=mmap.ACCESS_READ)
+        else:
+            # An empty file cannot be mapped; a log without records is read from an empty buffer instead
+            self.file_mmap = io.BytesIO()
         self._current_line = b""
         self._current_record: PenlogRecord | None = None
         self._current_record_index = 0
@@ -643,7 +648,9 @@ class PenlogReader:
                     yield self.current_record
         else:
             while True:
-                self.readline()
+                if self.readline() == b"":
+                    # A log without records
+                    break
                 if self.current_priority <= priority:
                     yield self.current_record
                 try:
